@@ -696,6 +696,10 @@ func checkC10(w *World, r *Recorder) propInfo {
 			}
 		}
 	}
+	// W12: what validation lets through is what the encoder emits: the
+	// container walks reject null entries and validate every element (C01-R3),
+	// so no component the getters do not report can be on the wire
+	importRules(w, r, checkC01, "C10-W12", func(o *Oblig) bool { return o.Rule == "C01-R3" })
 	r.Floor("C10-W1", 26)
 	r.Floor("C10-W3", 26)
 	r.Floor("C10-W4", 1)
@@ -777,6 +781,12 @@ func checkC04(w *World, r *Recorder) propInfo {
 	sub3 := NewRecorder(r.Property)
 	c16Factories(w, sub3)
 	remap(r, sub3, map[string]string{"C16-N3": "C04-T7"})
+	// T9: "all C01 rules met" — acceptance is decoding followed by validation,
+	// so the cell-wise agreement of every getter, walker and container walk with
+	// the profile table (C01-R1..R3) is part of what C04 needs
+	importRules(w, r, checkC01, "C04-T9", func(o *Oblig) bool {
+		return o.Rule == "C01-R1" || o.Rule == "C01-R2" || o.Rule == "C01-R3"
+	})
 	r.Floor("C04-T1", 26)
 	r.Floor("C04-T2", 2)
 	r.Floor("C04-T3", 1)
